@@ -213,7 +213,8 @@ def check_dataset(case, ctx):
         retimed = False
         shift = {"days": numpy.timedelta64(6, "h"), "hours": numpy.timedelta64(30, "m"),
                  "minutes": numpy.timedelta64(15, "s")}.get(case["units"]["period"])
-        if case.get("retime") and shift is not None:
+        whole = all(float(v).is_integer() for v in spec["time"]["values"])
+        if case.get("retime") and shift is not None and whole:
             # the series was moved by a fraction of its unit after it was read (resampled,
             # re-centred ...) while the variable still carries the encoding it came with, now
             # asking for integers: the requested unit cannot hold the instants any more and the
